@@ -10,6 +10,7 @@ CONSTANTS
   EnvOps <- EnvOpsSelf
   KillCarriesState = TRUE
   Once = TRUE
+  Local = {}
   MonPairs <- MonPairsSelf
   Undecodable = {1}
 INVARIANTS
